@@ -402,6 +402,17 @@ func TestC07(t *testing.T) {
 		if err != nil {
 			t.Fatal(err)
 		}
+		if rf.Kind == "time" {
+			var tc timeCase
+			if err := json.Unmarshal(rf.Case, &tc); err != nil {
+				t.Fatal(err)
+			}
+			rec.Eval()
+			if msg := checkTimeBudget(tc); msg != "" {
+				rec.Violation("time", tc, msg)
+			}
+			return
+		}
 		var c c07Case
 		if err := json.Unmarshal(rf.Case, &c); err != nil {
 			t.Fatal(err)
@@ -426,6 +437,29 @@ func TestC07(t *testing.T) {
 			t.Fatalf("unknown case kind %q", c.Kind)
 		}
 		return
+	}
+
+	// time budgets (one-sided: only a lower bound of the elapsed time is used)
+	{
+		tidx := 0
+		for _, child := range []string{"empty", "cpu", "mem", "millis-bigger"} {
+			for _, sl := range []int{25, 70} {
+				for _, depth := range []int{1, 3} {
+					tidx++
+					if !rec.Mine(tidx) {
+						continue
+					}
+					tc := timeCase{LimitMs: 600_000, SleepMs: sl, Child: child, Depth: depth}
+					rec.Eval()
+					rec.Class("time-budget")
+					rec.NonTrivial(fmt.Sprint("time|", tc))
+					if msg := checkTimeBudget(tc); msg != "" {
+						rec.Violation("time", tc, msg)
+						return
+					}
+				}
+			}
+		}
 	}
 
 	tKnown := time.Now()
